@@ -2,7 +2,7 @@
    on which the model of the unchanged code does NOT end in an error although the weather input
    does not cover the simulated days / has a short year / lacks a year file. *)
 From Coq Require Import ZArith List Bool Floats.
-From Hermes Require Import Num Calendar WeatherModel CtrlModel.
+From Hermes Require Import Num Util Calendar WeatherModel CtrlModel.
 Import ListNotations.
 Open Scope Z_scope.
 
@@ -22,12 +22,19 @@ Lemma uncovered_is_error_refuted_lemma :
                          (29224, 0, 82, 1%float); (29225, 1, 82, 2%float)].
 Proof. eexists. split; vm_compute; reflexivity. Qed.
 
-(* the multi-year readers accept a gap that ends on a 1 January: 2 Jan 1981 -> 1 Jan 1982;
-   the year 1981 is stored with MaxYearDays = 2 *)
-Lemma gap_to_jan1_is_error_refuted_lemma :
-  exists st, read_multi (-99)%float [] 1981 2 [(1981, 1, wr 1); (1981, 2, wr 2); (1982, 1, wr 3)] = Some st /\
-             maxd_at st 0 = 2 /\ s_jar (slot_at st 1) = 1982.
-Proof. eexists. split; [vm_compute; reflexivity|]. split; vm_compute; reflexivity. Qed.
+(* F32 repaired: a gap that ends on a 1 January is "missing days" (the year before has to end on its 31 December) ... *)
+Lemma gap_to_jan1_is_error_lemma :
+  read_multi (-99)%float [] 1981 2 [(1981, 1, wr 1); (1981, 2, wr 2); (1982, 1, wr 3)] = None.
+Proof. vm_compute. reflexivity. Qed.
+
+(* ... but the test compares MaxYearDays with the length of the year BEFORE the new record's year, not with the stored
+   year: a series that jumps from 31 Dec 1981 to 1 Jan 1983 (both years 365 days) is still accepted, the year 1982 is
+   simply absent from the store (LoadYear's error for it is dropped: F9) *)
+Definition full_year (y : Z) : list (mrec float) := map (fun d => (y, d, wr 1)) (zrange 1 (Z.to_nat (ylen y))).
+Lemma missing_year_is_error_refuted_lemma :
+  exists st, read_multi (-99)%float [] 1981 3 (full_year 1981 ++ full_year 1983) = Some st /\
+             s_jar (slot_at st 0) = 1981 /\ s_jar (slot_at st 1) = 1983 /\ find_year st 1982 = None.
+Proof. eexists. split; [vm_compute; reflexivity|]. repeat split; vm_compute; reflexivity. Qed.
 
 (* per-year layout: the file of 1981 stops after 3 January, no file for 1982: same outcome, the
    errors of WetterK/LoadYear are dropped *)
